@@ -64,7 +64,18 @@ def build(link, weak, call):
     return ops
 
 
-def generate():
+def generate(panic_obj=0):
+    """panic_obj = k: the destructor of object k panics (C11: consuming calls that release a
+    handle whose group then dies with a panicking destructor)"""
+    out = []
+    for sc in _generate():
+        if panic_obj:
+            sc = [dict(o, d=dict(op="Panic", x=0, y=0)) if o["op"] == "New" and o["a"] == panic_obj else o for o in sc]
+        out.append(sc)
+    return out
+
+
+def _generate():
     out = []
     for link, weak, call in itertools.product(LINKS, WEAKS, CALLS):
         out.append(build(link, weak, call))
